@@ -574,6 +574,11 @@ func concurrentPhase(run *core.Run, w *workload, cfg sched.Config, fine bool, op
 						return
 					}
 					step := s.Yield(i)
+					if site == "pkg" {
+						// the restorer asks for package names while ranging over a map: how many
+						// calls precede a failing one is map order, so these are not logged
+						return
+					}
 					st.trace = append(st.trace, fmt.Sprintf("%06d w%d %s", step, i, site))
 				}
 				fs := &frState{}
